@@ -7,14 +7,17 @@
                          of a dump laid out like the shipped ones (one blank line before each marker)
     edge_fields_*        density iff the 4th token is `density`, else 1 — also on a bare `id v1 v2` line (D14)
     cycle_*              the cell cycle is the list of tail vertices of the signed edges, and follows a closed loop
-    orphans_*            no vertex without a cell survives; survivors keep their cells
+    orphans_*            no vertex without a cell survives; survivors keep their cells; no edge at a removed vertex survives
+    faceless_edges_dropped / referenced_edges_kept   exactly the edges referenced by a face survive (repair of D23)
+    se_consistent        the parsed mesh is consistent (through C09)
     gt_mean*             an interface's reference is the mean of its mesh edges' references
 -/
 import ForsysModel.Model.SEParser
 import ForsysModel.Proofs.C14
+import ForsysModel.Props.C09
 
 namespace Forsys
-open SE
+open SE Mesh
 
 /-! ### faces -/
 
@@ -163,14 +166,69 @@ theorem orphans_survivors (m : Mesh) :
       = (m.vertices.map fun p => (p.1, p.2.ownCells)).filter fun p => !(orphanIds m).contains p.1 :=
   vsig_orphanRemoval m
 
-/- Full statement of the property's clause: "edges that belong to no face are dropped", i.e.
-     ∀ q ∈ (removeOrphans p).mesh.edges, ∃ c ∈ (removeOrphans p).mesh.cells, q.2.v1 ∈ c.2.verts ∧ q.2.v2 ∈ c.2.verts ∧ (consecutive)
-   is false for the code: only edges ending at a vertex without cells are deleted.  Witness: the unit square 1-2-3-4 as
-   one cell plus the diagonal 8 = (1, 3), which belongs to no face and survives (replayed on the real code as
-   corpus/C14/faceless_chord.json, known finding D20). -/
-theorem orphans_faceless_edge_witness :
+/-- the upstream rule (before repair 9a1abb9 of finding D23) deleted only the edges ending at a vertex without cells:
+    in the unit square 1-2-3-4 with the diagonal 8 = (1, 3), which belongs to no face, the diagonal survived
+    (replayed on the real code as corpus/C14/faceless_chord.json) -/
+theorem upstream_faceless_edge_witness :
     ((Mesh.ofLists [(1, 0, 0), (2, 1, 0), (3, 1, 1), (4, 0, 1)] [(1, 1, 2), (2, 2, 3), (3, 3, 4), (4, 4, 1), (8, 1, 3)]
         [(1, [1, 2, 3, 4])]).orphanRemoval.edge? 8).isSome = true := by
+  decide +kernel
+
+example : ((dropFaceless [1, 2, 3, 4] (Mesh.ofLists [(1, 0, 0), (2, 1, 0), (3, 1, 1), (4, 0, 1)]
+    [(1, 1, 2), (2, 2, 3), (3, 3, 4), (4, 4, 1), (8, 1, 3)] [(1, [1, 2, 3, 4])]).orphanRemoval).edge? 8).isSome = false := by
+  decide +kernel
+
+/-- the repaired clause: no mesh edge that no face references survives … -/
+theorem faceless_edges_dropped (used : List Id) (m : Mesh) :
+    ∀ q ∈ (dropFaceless used m).edges, q.1 ∈ used :=
+  fun q hq => ((dropFaceless_edges used m q).mp hq).2
+
+/-- … and every referenced edge that survived the orphan-vertex loop stays -/
+theorem referenced_edges_kept (used : List Id) (m : Mesh) :
+    ∀ q ∈ m.edges, q.1 ∈ used → q ∈ (dropFaceless used m).edges :=
+  fun q hq hu => (dropFaceless_edges used m q).mpr ⟨hq, hu⟩
+
+/-- no surviving mesh edge ends at a vertex that was removed for having no cell -/
+theorem orphans_removed_edges (m : Mesh) (h : m.Consistent = true) :
+    ∀ q ∈ m.orphanRemoval.edges, q.2.v1 ∉ orphanIds m ∧ q.2.v2 ∉ orphanIds m := by
+  have hc := (consistent_iff _).mp (orphanRemoval_consistent m h)
+  have key : ∀ k ∈ m.orphanRemoval.vertices.map (·.1), k ∉ orphanIds m := by
+    intro k hk
+    obtain ⟨p, hp, rfl⟩ := List.mem_map.mp hk
+    have h1 : (p.1, p.2.ownCells) ∈ vsig m.orphanRemoval := List.mem_map.mpr ⟨p, hp, rfl⟩
+    rw [vsig_orphanRemoval, List.mem_filter] at h1
+    simpa using h1.2
+  intro q hq
+  obtain ⟨_, h1, h2⟩ := hc.2.2.2.1.1 q hq
+  exact ⟨key _ h1, key _ h2⟩
+
+/-- C09 for the parser: the mesh left by `create_lattice` is consistent, provided the faces reference every mesh
+    edge that runs along their boundary (which is what a face's edge loop is) -/
+theorem se_consistent (vs : List (Id × Rat × Rat)) (es : List (Id × Id × Id)) (cs : List (Id × List Id))
+    (used : List Id) (h : WFInput vs es cs)
+    (hused : ∀ q ∈ (ofLists vs es cs).orphanRemoval.edges,
+      (∃ c ∈ (ofLists vs es cs).orphanRemoval.cells, ∃ ab ∈ cyclicPairs c.2.verts,
+        (q.2.v1 = ab.1 ∧ q.2.v2 = ab.2) ∨ (q.2.v1 = ab.2 ∧ q.2.v2 = ab.1)) → q.1 ∈ used) :
+    (dropFaceless used (ofLists vs es cs).orphanRemoval).Consistent = true := by
+  rw [consistent_iff]
+  exact dropFaceless_consP used _ ((consistent_iff _).mp (orphanRemoval_consistent _ (ofLists_consistent vs es cs h))) hused
+
+/-! the hypotheses of `se_consistent` are satisfiable: the square with its diagonal and a dangling vertex 9 -/
+example : WFInput [(1, 0, 0), (2, 1, 0), (3, 1, 1), (4, 0, 1), (9, 5, 5)]
+    [(1, 1, 2), (2, 2, 3), (3, 3, 4), (4, 4, 1), (8, 1, 3), (21, 9, 1)] [(1, [1, 2, 3, 4])] := by
+  constructor <;> decide
+example : ∀ q ∈ (ofLists [(1, 0, 0), (2, 1, 0), (3, 1, 1), (4, 0, 1), (9, 5, 5)]
+    [(1, 1, 2), (2, 2, 3), (3, 3, 4), (4, 4, 1), (8, 1, 3), (21, 9, 1)] [(1, [1, 2, 3, 4])]).orphanRemoval.edges,
+      (∃ c ∈ (ofLists [(1, 0, 0), (2, 1, 0), (3, 1, 1), (4, 0, 1), (9, 5, 5)]
+    [(1, 1, 2), (2, 2, 3), (3, 3, 4), (4, 4, 1), (8, 1, 3), (21, 9, 1)] [(1, [1, 2, 3, 4])]).orphanRemoval.cells, ∃ ab ∈ cyclicPairs c.2.verts,
+        (q.2.v1 = ab.1 ∧ q.2.v2 = ab.2) ∨ (q.2.v1 = ab.2 ∧ q.2.v2 = ab.1)) → q.1 ∈ ([1, 2, 3, 4] : List Id) := by
+  decide +kernel
+example : (dropFaceless [1, 2, 3, 4] (ofLists [(1, 0, 0), (2, 1, 0), (3, 1, 1), (4, 0, 1), (9, 5, 5)]
+    [(1, 1, 2), (2, 2, 3), (3, 3, 4), (4, 4, 1), (8, 1, 3), (21, 9, 1)] [(1, [1, 2, 3, 4])]).orphanRemoval).Consistent = true := by
+  decide +kernel
+example : ((dropFaceless [1, 2, 3, 4] (ofLists [(1, 0, 0), (2, 1, 0), (3, 1, 1), (4, 0, 1), (9, 5, 5)]
+    [(1, 1, 2), (2, 2, 3), (3, 3, 4), (4, 4, 1), (8, 1, 3), (21, 9, 1)] [(1, [1, 2, 3, 4])]).orphanRemoval).edges.map (·.1))
+      = [1, 2, 3, 4] := by
   decide +kernel
 
 /-! ### Frame(gt=True) -/
@@ -197,11 +255,6 @@ example : roundDec (3 / 2000) 3 = 2 / 1000 := by decide +kernel     -- a tie: ha
 example : roundDec (507162903316195 / 10000000000000000) 4 = 507 / 10000 := by decide +kernel
 
 /- PENDING:
-   theorem orphans_removed_edges (m : Mesh) (h1 : m.keysOk = true) (h2 : m.ownEdgesOk = true) :
-       ∀ q ∈ m.orphanRemoval.edges, ∀ i ∈ orphanIds m, q.2.v1 ≠ i ∧ q.2.v2 ≠ i
-   (no surviving mesh edge ends at a removed vertex)
-   theorem se_consistent : WFInput vs es cs → (ofLists vs es cs).orphanRemoval.Consistent = true
-   (follows from C09's ofLists_consistent and orphanRemoval_consistent once the latter is proved)
    theorem roundDec_nearest (q : Rat) (n : Nat) : |roundDec q n - q| ≤ 1 / (2 * 10 ^ n)
 -/
 
